@@ -15,7 +15,7 @@ NAMES = [None, None, "x", "y", "myfunc"]
 
 class G:
     def __init__(self, rng, dyadic=True, faults=False, counts_tsq=False, max_depth=3,
-                 kinds=None, leaves=None, names=True):
+                 kinds=None, leaves=None, names=True, vecbags=True):
         self.r = rng
         self.dyadic = dyadic
         self.faults = faults
@@ -24,6 +24,7 @@ class G:
         self.kinds = kinds or NODES
         self.leaves = leaves or LEAVES
         self.names = names
+        self.vecbags = vecbags      # Bags of vectors (a tuple-valued quantity is not vectorisable)
 
     # ---- numbers
     def num(self):
@@ -88,7 +89,7 @@ class G:
             return {"k": "Count"}
         if k == "Bag":
             c = r.random()
-            if c < 0.25 and not self.faults:
+            if c < 0.25 and not self.faults and self.vecbags:
                 n = r.choice([2, 2, 3])
                 return {"k": "Bag", "range": "N%d" % n, "q": self.q(["vec"] + [r.randint(0, 2) for _ in range(n)])}
             if c < 0.6:
